@@ -84,4 +84,6 @@ void op_meta (char **tok, int ntok) ;
 /* ieee.c (C20: portable IEEE serialisers, sfendian.h helpers) */
 int cmd_ieee (int argc, char **argv) ;
 
+void iolog_account (int *blocks, long *bytes) ;
+
 #endif
